@@ -28,6 +28,10 @@ pub struct Case {
 }
 
 impl Case {
+    pub fn placeholder() -> Case {
+        Case { task_id: String::new(), files: vec![], options: vec![], file_args: vec![], flags: vec![], run_flags: vec![], save_problems: false, stale_out: false, instances: 1, cpus: 1, mix: String::new(), plan: Plan::quiet() }
+    }
+
     pub fn shape_key(&self) -> String {
         let mut s = String::new();
         for (n, c) in &self.files {
